@@ -291,12 +291,29 @@ def o23(ctx):
     # (c) rows are iterated without the index; labels enumerated from 1 over frame.columns
     its = [n for n in ast.walk(fn) if isinstance(n, ast.Call) and isinstance(n.func, ast.Attribute) and n.func.attr == "itertuples"]
     ctx.count(1)
-    if len(its) != 1:
-        raise Unsupported("row iteration (itertuples) not found in Starfile.write", fn)
-    idx = kwarg(its[0], "index")
-    if not (isinstance(idx, ast.Constant) and idx.value is False):
-        ctx.finding(WR, its[0], "rows must be iterated with itertuples(index=False): otherwise the row index is written as an "
-                    "extra first cell", its[0], m)
+    if len(its) == 1:
+        idx = kwarg(its[0], "index")
+        if not (isinstance(idx, ast.Constant) and idx.value is False):
+            ctx.finding(WR, its[0], "rows must be iterated with itertuples(index=False): otherwise the row index is written as an "
+                        "extra first cell", its[0], m)
+    else:
+        # rows addressed one by one: by position (iloc / values) is fine, by label (.loc[i], i from range(n)) is a label lookup
+        rng_loops = [n for n in ast.walk(fn) if isinstance(n, ast.For) and isinstance(n.iter, ast.Call) and isinstance(n.iter.func, ast.Name)
+                     and n.iter.func.id == "range" and isinstance(n.target, ast.Name)
+                     and any(isinstance(c, ast.Call) and isinstance(c.func, ast.Attribute) and c.func.attr == "write" for c in ast.walk(n))
+                     and any(isinstance(x, ast.Subscript) and isinstance(x.slice, ast.Name) and x.slice.id == n.target.id for x in ast.walk(n))]
+        if len(rng_loops) != 1:
+            raise Unsupported("row iteration of Starfile.write not recognised (itertuples / positional loop)", fn)
+        lp = rng_loops[0]
+        for x in ast.walk(lp):
+            if isinstance(x, ast.Subscript) and isinstance(x.slice, ast.Name) and x.slice.id == lp.target.id and isinstance(x.value, ast.Attribute):
+                ctx.count(1)
+                if x.value.attr in ("loc", "at"):
+                    ctx.finding(WR, x, "rows are fetched with a label lookup (.loc[i], i = 0..n-1): for a table whose index is not 0..n-1 (after a "
+                                "sort or a selection) the rows are written in label order, or the lookup fails -- rows must be taken by position",
+                                x, m)
+                elif x.value.attr not in ("iloc", "iat", "values"):
+                    raise Unsupported("row access in the data loop of Starfile.write not recognised", x)
     enums = [n for n in ast.walk(fn) if isinstance(n, ast.Call) and isinstance(n.func, ast.Name) and n.func.id == "enumerate"
              and n.args and ast.unparse(n.args[0]).endswith(".columns")]
     ctx.count(1)
